@@ -63,7 +63,7 @@
  'kf_probe_case': {'C06_neg_narrowing': {'CONV': 'CONV_D'}, 'C06_prec_minus_prefix': {'CONV': 'CONV_D'},
                    'C06_prec0_val0': {'CONV': 'CONV_U'}, 'C06_hash_zero': {'CONV': 'CONV_X'},
                    'C06_zero_flag_with_prec': {'CONV': 'CONV_O'}},
- 'assumptions': ['print_i call-site facts of __printf: width >= 0 (MAX(width, 0)); min_len >= 0; min_len == 0 when OPS_PREC_IS_GIVEN is clear (precision = atoi of a non-digit, or a negative `*` argument reset to 0); (base, is_signed) is (10,1) for d/i, (10,0) u, (8,0) o, (16,0) x/X; OPS_SPEC_UPPER_CASE only for X; %p: min_len as in spec/c06_pform.h, ops | WITH_SPEC | ZERO_PAD, base 16 (that __printf passes exactly these is proved by fetch_csp / parser)',
+ 'assumptions': ['print_i call-site facts of __printf: width >= 0 (MAX(width, 0)); min_len >= 0; min_len == 0 when OPS_PREC_IS_GIVEN is clear (precision = atoi of a non-digit, or a negative `*` argument reset to 0); (base, is_signed) is (10,1) for d/i, (10,0) u, (8,0) o, (16,0) x/X; OPS_SPEC_UPPER_CASE only for X; %p: precision and forced flag bits as in spec/c06_pform.h, base 16 (that __printf passes exactly these is proved by fetch_csp / parser)',
                  'the ISO text has at most INT_MAX characters (the int return value cannot report more)'],
  'trusted': ['segment-wise equality (same five lengths, same character at every (segment, offset)) implies equality of the two concatenated texts -- elementary, done outside the solver',
              'digits of |v|: defined by the positional recurrence q0 = |v|, digit(i) = q(i) mod base, q(i+1) = q(i) div base, co-simulated in lock-step inside the digit loop (as units/C07 do); the NUMBER of digits is compared with the independent oracle (least n with |v| < base^n), and witness/replay runs compare against the closed form (|v| div base^i) mod base'],
@@ -128,7 +128,7 @@ void harness(void)
         /* the %p call of __printf (form: spec/c06_pform.h) */
         v = (size_t)v;
         min_len = C06_P_MINLEN;
-        ops |= OPS_FLAG_WITH_SPEC | OPS_FLAG_ZERO_PAD;
+        ops = C06_P_OPS(ops);
         L = iso_ptr_layout(C06_ISO_FLAGS(ops_in), width, v);
     } else {
         __CPROVER_assume(has_prec || prec == 0);
